@@ -181,7 +181,7 @@ func (e *Exec) fmtValue(fr *frame, verb byte, flags string, a value, out *[]piec
 		flush()
 		c := byte('g')
 		if verb == 'f' || verb == 'F' {
-			c = 'f'
+			c = '6' // fixed six decimals: not the same text as FormatFloat(f,'f',-1,64)
 		}
 		if strings.Contains(flags, ".") {
 			panic(abortPath{why: "fmt precision on symbolic float", kind: "unsupported"})
